@@ -2,10 +2,14 @@ package main
 
 import (
 	"bytes"
+	"encoding/base64"
+	"encoding/binary"
+	"encoding/json"
 	"fmt"
 	"math/rand"
 	"net"
 	"os"
+	"reflect"
 	"sort"
 	"strconv"
 	"strings"
@@ -19,8 +23,8 @@ import (
 
 // Engine "udp" (property C03).
 //
-//	b64 <bytes>                          => <content>:<rt>      udp.NewUDPPacket(...).Content, rt=1 iff GetContent gives the bytes back
-//	dec <string>                         => <bytes> | err        udp.GetContent(&UDPPacket{Content: s})
+//	b64 <bytes>                          => <content>:<rt>      content text of udp.NewUDPPacket(...) as msg.WriteMsg puts it on the wire, rt=1 iff GetContent gives the bytes back
+//	dec <string>                         => <bytes> | err        udp.GetContent of a UDPPacket whose content text is s
 //	frame ps=<ps> <bytes> <laddr> <raddr> => len=<bodyLen>;h=<hash(frame)>;rd=ok|toolong|err;rt=0|1
 //	        msg.WriteMsg(NewUDPPacket(bytes,l,r)) then msg.ReadMsg of those bytes.  addr = nil | a:<iptext>:<port>:<zone>
 //	        ps = the udpPacketSize under which such a payload can occur (len(bytes) <= ps)
@@ -28,6 +32,10 @@ import (
 //	        real udp.ForwardUserConn + udp.Forwarder, loopback sockets, channels joined through
 //	        real msg.WriteMsg / ReadMsgInto / ReadMsg over a net.Pipe (as the two UDPProxy types do)
 //	        => B=<u.seq.len.hash,...>;U0=<...>;...;socks=<n>;mixed=<0|1>;ferr=<n>
+//	tunnel ps=<ps> k=<k> d=<...> g=<n>   (also e2e / e2es)
+//	        the same in BURSTS: the users send n datagrams back to back (no pause, whoever they come from), the
+//	        backend keeps its answers until the whole burst has arrived and then sends them back to back; the next
+//	        burst starts when everything has come back.  Every datagram and every answer is compared by content.
 //	e2e …   see eng_udp_e2e.go;  sudp …   see eng_udp_sudp.go
 //
 // payload of datagram #seq of user u with (len, seed): ['Q', u, seq>>8, seq&255] ++ lcg(seed) bytes;
@@ -108,7 +116,88 @@ func addrEq(a, b *net.UDPAddr) bool {
 	return a.String() == b.String()
 }
 
+// ---------------------------------------------------------------- representation-independent access to UDPPacket
+//
+// The harness never names the type of msg.UDPPacket.Content: packets are built with udp.NewUDPPacket and read with
+// udp.GetContent (the two functions the property is anchored in); where a packet with an ARBITRARY content text is
+// needed (malformed base64, a marker of another engine) it is either put on the wire as a frame written by hand
+// (udpRawFrame: what a peer that speaks the protocol could send) or built through reflection (udpRawPacket).  A
+// change of the field's representation is then a behaviour the ops observe, not a build break of the harness.
+
+// udpWireObj is the JSON object of a UDPPacket as it travels (pkg/msg/msg.go tags; all omitempty)
+type udpWireObj struct {
+	C string       `json:"c,omitempty"`
+	L *net.UDPAddr `json:"l,omitempty"`
+	R *net.UDPAddr `json:"r,omitempty"`
+}
+
+// udpRawFrame: the frame 'u' | int64 big-endian length | {"c":content,"l":…,"r":…} — byte for byte what msg.WriteMsg
+// produces for a UDPPacket whose content text is `content`
+func udpRawFrame(content string, l, r *net.UDPAddr) []byte {
+	body, err := json.Marshal(udpWireObj{C: content, L: l, R: r})
+	if err != nil {
+		panic(err)
+	}
+	out := make([]byte, 9, 9+len(body))
+	out[0] = 'u'
+	binary.BigEndian.PutUint64(out[1:9], uint64(len(body)))
+	return append(out, body...)
+}
+
+// udpRawPacket: an in-memory UDPPacket whose content text (the value of "c" on the wire) is `content`.  ok = false
+// when the representation of the field cannot hold that text (e.g. a []byte field and a text that is not base64).
+func udpRawPacket(content string, l, r *net.UDPAddr) (m *msg.UDPPacket, ok bool) {
+	m = &msg.UDPPacket{LocalAddr: l, RemoteAddr: r}
+	f := reflect.ValueOf(m).Elem().FieldByName("Content")
+	switch {
+	case f.Kind() == reflect.String:
+		f.SetString(content)
+		return m, true
+	case f.Kind() == reflect.Slice && f.Type().Elem().Kind() == reflect.Uint8:
+		b, err := base64.StdEncoding.DecodeString(content)
+		if err != nil {
+			return m, false
+		}
+		f.SetBytes(b)
+		return m, true
+	}
+	return m, false
+}
+
+// udpPacketOf: udp.NewUDPPacket for the engines that do not import pkg/proto/udp
+func udpPacketOf(b []byte, l, r *net.UDPAddr) *msg.UDPPacket { return udp.NewUDPPacket(b, l, r) }
+
+// udpWireContent: the content text of m as it appears on the wire (through the real msg.WriteMsg)
+func udpWireContent(m *msg.UDPPacket) string {
+	var buf bytes.Buffer
+	if err := msg.WriteMsg(&buf, m); err != nil || buf.Len() < 9 {
+		return "!werr"
+	}
+	var o udpWireObj
+	if err := json.Unmarshal(buf.Bytes()[9:], &o); err != nil {
+		return "!jerr"
+	}
+	return o.C
+}
+
 var udpQuiet sync.Once
+
+// Re-running an op in which something is missing forgives a datagram lost by the kernel (or sent in the instant a
+// connection went away): such a loss does not repeat.  When re-runs keep coming back with something missing the loss is
+// the implementation's, the verdict is settled, and re-running every further op only costs time: after three futile
+// re-runs in a process no op is re-run any more.
+var udpFutileReruns = 0
+
+func udpRerunWorthIt(missing bool) bool { return missing && udpFutileReruns < 3 }
+
+func udpRerunDone(stillMissing bool) {
+	if stillMissing {
+		udpFutileReruns++
+	}
+	if os.Getenv("VERIF_UDP_DEBUG") != "" {
+		fmt.Fprintf(os.Stderr, "udp: op re-run, still missing=%v (futile so far %d)\n", stillMissing, udpFutileReruns)
+	}
+}
 
 func udpExec(tok []string) string {
 	// frp's console logger writes to stdout, where the trace goes: error-level lines of the real code
@@ -116,6 +205,7 @@ func udpExec(tok []string) string {
 	udpQuiet.Do(func() { frplog.InitLogger(os.DevNull, "error", 0, true) })
 	switch tok[0] {
 	case "reset":
+		udpFutileReruns = 0
 		return "-"
 	case "b64":
 		b := []byte(unhx(tok[1]))
@@ -125,9 +215,13 @@ func udpExec(tok []string) string {
 		if err == nil && bytes.Equal(back, b) {
 			rt = "1"
 		}
-		return hx(m.Content) + ":" + rt
+		return hx(udpWireContent(m)) + ":" + rt
 	case "dec":
-		b, err := udp.GetContent(&msg.UDPPacket{Content: unhx(tok[1])})
+		m, ok := udpRawPacket(unhx(tok[1]), nil, nil)
+		if !ok {
+			return "err"
+		}
+		b, err := udp.GetContent(m)
 		if err != nil {
 			return "err"
 		}
@@ -169,6 +263,8 @@ func udpExec(tok []string) string {
 		return spxExec(tok)
 	case "cpx":
 		return cpxExec(tok)
+	case "upx":
+		return upxExec(tok)
 	case "e2ev":
 		return e2evExec(tok)
 	case "batch":
@@ -186,9 +282,18 @@ func udpExec(tok []string) string {
 		}
 		// a datagram legitimately lost by the kernel must not alarm: when something is missing
 		// (and nothing is wrong) the same op is run again and the fuller result reported
-		res, missing := runTunnel(ps, k, ds)
-		for try := 0; missing && try < 2; try++ {
-			res, missing = runTunnel(ps, k, ds)
+		g := 0
+		if len(tok) > 4 {
+			g = atoi(strings.TrimPrefix(tok[4], "g="))
+		}
+		res, missing := runTunnel(ps, k, ds, g)
+		tries := 2
+		if g > 0 {
+			tries = 1
+		}
+		for try := 0; udpRerunWorthIt(missing) && try < tries; try++ {
+			res, missing = runTunnel(ps, k, ds, g)
+			udpRerunDone(missing)
 		}
 		return res
 	}
@@ -236,7 +341,30 @@ func fmtEntries(es []tentry) string {
 	return strings.Join(ss, ",")
 }
 
-func runTunnel(ps, k int, ds [][3]int) (string, bool) {
+// tunnelHeld is an answer the backend keeps until the burst is complete
+type tunnelHeld struct {
+	reply []byte
+	to    *net.UDPAddr
+}
+
+// burstWait: until cnt() >= want, or nothing has moved for `stall`
+func burstWait(cnt func() int, want int, stall time.Duration) bool {
+	last, lastT := -1, time.Now()
+	for {
+		c := cnt()
+		if c >= want {
+			return true
+		}
+		if c != last {
+			last, lastT = c, time.Now()
+		} else if time.Since(lastT) > stall {
+			return false
+		}
+		time.Sleep(200 * time.Microsecond)
+	}
+}
+
+func runTunnel(ps, k int, ds [][3]int, g int) (string, bool) {
 	lo := &net.UDPAddr{IP: net.IPv4(127, 0, 0, 1)}
 	srvConn, err := net.ListenUDP("udp", lo)
 	if err != nil {
@@ -254,6 +382,7 @@ func runTunnel(ps, k int, ds [][3]int) (string, bool) {
 	srcPorts := map[int]*net.UDPAddr{}
 	mixed := 0
 	progress := 0
+	var held []tunnelHeld
 	go func() {
 		buf := make([]byte, 70000)
 		for {
@@ -274,8 +403,13 @@ func runTunnel(ps, k int, ds [][3]int) (string, bool) {
 				srcPorts[from.Port] = from
 			}
 			progress++
+			if g > 0 {
+				held = append(held, tunnelHeld{tunnelReply(p), from})
+			}
 			mu.Unlock()
-			_, _ = backend.WriteToUDP(tunnelReply(p), from)
+			if g == 0 {
+				_, _ = backend.WriteToUDP(tunnelReply(p), from)
+			}
 		}
 	}()
 
@@ -372,10 +506,38 @@ func runTunnel(ps, k int, ds [][3]int) (string, bool) {
 			}
 		}(i, c)
 	}
-	for i, d := range ds {
-		_, _ = users[d[0]].Write(tunnelPayload(d[0], i, d[1], d[2]))
-		if i%8 == 7 {
-			time.Sleep(300 * time.Microsecond)
+	if g > 0 {
+		count := func() int { mu.Lock(); defer mu.Unlock(); return progress }
+		done := 0
+		stall := 250 * time.Millisecond // once something has failed to come the verdict is settled: do not wait long again
+		for lo := 0; lo < len(ds); lo += g {
+			hi := min(lo+g, len(ds))
+			for i := lo; i < hi; i++ { // the burst: back to back
+				d := ds[i]
+				_, _ = users[d[0]].Write(tunnelPayload(d[0], i, d[1], d[2]))
+			}
+			if !burstWait(count, done+(hi-lo), stall) {
+				stall = 40 * time.Millisecond
+			}
+			mu.Lock()
+			h := held
+			held = nil
+			done = progress
+			mu.Unlock()
+			for _, x := range h { // the answers of the burst: back to back
+				_, _ = backend.WriteToUDP(x.reply, x.to)
+			}
+			if !burstWait(count, done+len(h), stall) {
+				stall = 40 * time.Millisecond
+			}
+			done = count()
+		}
+	} else {
+		for i, d := range ds {
+			_, _ = users[d[0]].Write(tunnelPayload(d[0], i, d[1], d[2]))
+			if i%8 == 7 {
+				time.Sleep(300 * time.Microsecond)
+			}
 		}
 	}
 	// quiescence: everything expected has arrived, or no progress for 250 ms
@@ -391,7 +553,7 @@ func runTunnel(ps, k int, ds [][3]int) (string, bool) {
 		}
 		if p != last {
 			last, lastT = p, time.Now()
-		} else if time.Since(lastT) > 250*time.Millisecond {
+		} else if time.Since(lastT) > 250*time.Millisecond || (g > 0 && time.Since(lastT) > 40*time.Millisecond) {
 			break
 		}
 		time.Sleep(2 * time.Millisecond)
@@ -494,7 +656,7 @@ func genMalformed(rng *rand.Rand) string {
 		return sb.String()
 	default: // valid encoding, then mutated
 		m := udp.NewUDPPacket(randBytes(rng, rng.Intn(30)), nil, nil)
-		s := []byte(m.Content)
+		s := []byte(udpWireContent(m))
 		for j := rng.Intn(3); j > 0 && len(s) > 0; j-- {
 			i := rng.Intn(len(s))
 			switch rng.Intn(7) {
@@ -537,8 +699,78 @@ func genTunnel(rng *rand.Rand, ps, k, nd, maxLen int, emit func(string)) {
 	emit(fmt.Sprintf("tunnel ps=%d k=%d d=%s", ps, k, strings.Join(ds, ",")))
 }
 
+// burstShape: a burst size between 20 and 100 and a payload bound that keeps one burst inside the default socket
+// buffer of the sockets frp opens (the kernel accounts ~768 bytes for a small datagram, payload + ~800 for a large
+// one; 208 KiB by default): a burst is back-to-back traffic, not overload
+func burstShape(rng *rand.Rand, ps int) (g, maxLen int) {
+	g = 20 + rng.Intn(81)
+	maxLen = 110000/g - 800
+	if maxLen > ps {
+		maxLen = ps
+	}
+	if maxLen < 16 {
+		maxLen = 16
+	}
+	return
+}
+
+// genBurstDs: nb bursts of g datagrams with distinct payloads; within a burst the senders are one user, the users in
+// turn, or arbitrary; lengths vary from datagram to datagram (a shorter one behind a longer one and vice versa), with
+// runs of equal lengths and the extremes 4 / maxLen in between
+func genBurstDs(rng *rand.Rand, k, nb, g, maxLen int) string {
+	ds := make([]string, 0, nb*g)
+	for b := 0; b < nb; b++ {
+		mode := rng.Intn(3)
+		u0 := rng.Intn(k)
+		ln := 4 + rng.Intn(maxLen-3)
+		for i := 0; i < g; i++ {
+			u := u0
+			switch mode {
+			case 1:
+				u = (u0 + i) % k
+			case 2:
+				u = rng.Intn(k)
+			}
+			switch rng.Intn(8) {
+			case 0:
+				ln = 4
+			case 1:
+				ln = maxLen
+			case 2, 3: // keep the length of the previous datagram
+			default:
+				ln = 4 + rng.Intn(maxLen-3)
+			}
+			ds = append(ds, fmt.Sprintf("%d.%d.%d", u, ln, rng.Intn(1<<30)))
+		}
+	}
+	return strings.Join(ds, ",")
+}
+
 func udpGen(rng *rand.Rand, n int, emit func(string)) {
 	emit("reset")
+	// (00) bursts first (a failure is then found in a short prefix): back-to-back datagrams on the public / visitor
+	// port and back-to-back answers from the backend, on the restated pump, through real frps + frpc (all four
+	// encryption x compression settings), through a real sudp visitor + frps + sudp proxy
+	for i := 0; i < n/600+4; i++ {
+		ps := pick(rng, []int{1500, 1500, 1500, 64, 4096, 7605})
+		g, maxLen := burstShape(rng, ps)
+		k := 1 + rng.Intn(4)
+		emit(fmt.Sprintf("tunnel ps=%d k=%d d=%s g=%d", ps, k, genBurstDs(rng, k, 1+rng.Intn(3), g, maxLen), g))
+	}
+	for i := 0; i < n/3000+1; i++ {
+		for ec := 0; ec < 4; ec++ {
+			g, maxLen := burstShape(rng, 1500)
+			k := 1 + rng.Intn(4)
+			emit(fmt.Sprintf("e2e ps=1500 enc=%d comp=%d k=%d d=%s g=%d", ec>>1, ec&1, k, genBurstDs(rng, k, 1+rng.Intn(3), g, maxLen), g))
+		}
+		for _, ec := range []int{0, 3} {
+			g, maxLen := burstShape(rng, 1500)
+			k := 1 + rng.Intn(4)
+			emit(fmt.Sprintf("e2es ps=1500 enc=%d comp=%d k=%d d=%s g=%d", ec>>1, ec&1, k, genBurstDs(rng, k, 1+rng.Intn(2), g, maxLen), g))
+		}
+	}
+	// (01) the client side of a udp proxy fed a typed stream: every message type of the protocol between the datagrams
+	upxGen(rng, n, emit)
 	// (0) first, so that a failure is found in a short prefix: batches of decoded payloads that are all kept, the
 	// client side of a sudp proxy with several work connections alive at once (scripted, and behind real visitors + frps)
 	pxGen(rng, n, emit)
@@ -597,7 +829,8 @@ func udpGen(rng *rand.Rand, n int, emit func(string)) {
 			genTunnel(rng, 1500, k, 40+rng.Intn(160), 1500, emit)
 		}
 	}
-	// the same traffic through a real frps + frpc pair (three pairs: plain, encrypted, encrypted+compressed)
+	// the same traffic through a real frps + frpc pair (one pair per encryption x compression setting, and a fifth with
+	// the largest packet size that always fits)
 	e2eGen := func(ps int, enc, comp int, k, nd, maxLen int) {
 		genTunnel(rng, ps, k, nd, maxLen, func(l string) {
 			emit(strings.Replace(l, fmt.Sprintf("tunnel ps=%d ", ps), fmt.Sprintf("e2e ps=%d enc=%d comp=%d ", ps, enc, comp), 1))
@@ -606,6 +839,8 @@ func udpGen(rng *rand.Rand, n int, emit func(string)) {
 	for i := 0; i < n/1500+1; i++ {
 		e2eGen(1500, 0, 0, 1+rng.Intn(5), 30+rng.Intn(100), 1500)
 		e2eGen(1500, 1, 1, 1+rng.Intn(5), 30+rng.Intn(100), 1500)
+		e2eGen(1500, 1, 0, 1+rng.Intn(5), 30+rng.Intn(100), 1500)
+		e2eGen(1500, 0, 1, 1+rng.Intn(5), 30+rng.Intn(100), 1500)
 		e2eGen(7605, 1, 0, 1+rng.Intn(3), 10+rng.Intn(20), 7605)
 	}
 	// the configuration-limit case end to end: packet size 9000, the third datagram has 8000 bytes
